@@ -31,11 +31,17 @@ def _cand(c):
 def obs_pair(case):
     ts = datetime(*case["ts"])
     kw = dict(timeout=0, relative_match_len=case["rel"], max_stack_depth=case["depth"], latent_time=bool(case["latent"]))
-    single = qa.CTP.ctparse(case["text"], ts, scorer=_scorer(case["scorer"], case["seed"]), **kw)
-    stream = [c for c in qa.CTP.ctparse_gen(case["text"], ts, scorer=_scorer(case["scorer"], case["seed"]), **kw)]
-    kw2 = dict(kw)
-    kw2["latent_time"] = False
-    pre = [c for c in qa.CTP.ctparse_gen(case["text"], ts, scorer=_scorer(case["scorer"], case["seed"]), **kw2)]
+    # options the caller leaves out fall back to the defaults of EACH entry point: they have to be the same defaults
+    for name in case.get("omit", ()):
+        kw.pop(name, None)
+    sk = {} if "scorer" in case.get("omit", ()) else None
+    mk = (lambda: sk) if sk is not None else (lambda: {"scorer": _scorer(case["scorer"], case["seed"])})
+    with qa.virtual_clock(lambda: 0.0):      # a frozen clock: the default (wall-clock) timeout never expires
+        single = qa.CTP.ctparse(case["text"], ts, **mk(), **kw)
+        stream = [c for c in qa.CTP.ctparse_gen(case["text"], ts, **mk(), **kw)]
+        kw2 = dict(kw)
+        kw2["latent_time"] = False
+        pre = [c for c in qa.CTP.ctparse_gen(case["text"], ts, **mk(), **kw2)]
     cs = [_cand(single)] + [_cand(c) for c in stream] + [_cand(c) for c in pre]
     scores = sorted({c["score"] for c in cs if c["score"] is not None and not math.isnan(c["score"])})
     rank = {s: i for i, s in enumerate(scores)}
@@ -85,8 +91,17 @@ def run(ctx):
                             continue
                         cases.append({"text": t, "ts": ts, "latent": latent, "depth": depth, "rel": rel, "scorer": scorer,
                                       "seed": rnd.randrange(10 ** 6), "label": "opts", "form": "%s/d%d/l%d" % (scorer, depth, latent)})
+    # the same pairs with options left out (singly and all together): both entry points must fall back to the same defaults.
+    # Texts whose search stack outgrows the default depth limit are where a differing default shows.
+    big = [(t, ts) for t, ts in texts if engine.text_size(t)[1] >= 4]
+    rnd.shuffle(big)
+    for t, ts in big[:120 if ctx.quick else 1200] + [(t, (2018, 3, 7, 12, 43)) for t in extra[:12]]:
+        for omit in (["max_stack_depth"], ["relative_match_len"], ["latent_time"], ["timeout"], ["scorer"],
+                     ["max_stack_depth", "relative_match_len", "latent_time", "timeout", "scorer"]):
+            cases.append({"text": t, "ts": ts, "latent": 1, "depth": 10, "rel": 1.0, "scorer": "shipped", "seed": 0, "omit": omit,
+                          "label": "defaults", "form": "omit:" + "+".join(omit)})
     core.run_stage(ctx, "api-pairs", cases, obs_pair, "ApiTrace", cfg="ApiTrace.cfg", sig_keys=("form",),
-                   nontrivial=lambda c: (c["text"], c["latent"], c["depth"], c["rel"], c["scorer"]))
+                   nontrivial=lambda c: (c["text"], c["latent"], c["depth"], c["rel"], c["scorer"], tuple(c.get("omit", ()))))
 
 
 def replay(ctx, rp):
